@@ -34,7 +34,7 @@ def build(rng, g, tdm=True):
         lines.append("target " + rng.choice(["TD2", "borealis", "dev"]) + rng.choice(["", " (shots=5)"]))
     lines.append("type tdm (temporal_modes=%d%s)" % (rng.randint(1, 4), rng.choice(["", ", copies=2", ", shots=10"])))
     lines.append("")
-    pnames = rng.sample(["p0", "p1", "p2", "p3", "p7", "p42", "p007", "p10"], rng.randint(1, 6))
+    pnames = rng.sample(["p0", "p1", "p2", "p3", "p7", "p42", "p007", "p10", "p100", "p255", "p9", "p11", "p65535", "p00"], rng.choice([1, 2, 3, 4, 5, 6, 6, 9, 12]))
     decls = []
     for pn in pnames:
         vt = rng.choice(["int", "float", "float", "complex"])
